@@ -342,6 +342,196 @@ def canonicaliser_normalisations(repo: Repo) -> Set[Tuple[str, Tuple[str, str]]]
     return out
 
 
+# ---------------------------------------------------------------------------
+# round 10: D3e - the write-back D3d accepts is harmless only while the canonicaliser hashes the field through the same function
+# ---------------------------------------------------------------------------
+def _const_keys_of(fn: ast.AST) -> List[str]:
+    """Every constant string used as a mapping key anywhere in the function (literal keys, subscripts, get / pop / setdefault)."""
+    keys: Set[str] = set()
+    for n in ast.walk(fn):
+        if isinstance(n, ast.Dict):
+            keys |= {k.value for k in n.keys if isinstance(k, ast.Constant) and isinstance(k.value, str)}
+        elif isinstance(n, ast.Subscript) and isinstance(n.slice, ast.Constant) and isinstance(n.slice.value, str):
+            keys.add(n.slice.value)
+        elif isinstance(n, ast.Call) and isinstance(n.func, ast.Attribute) and n.func.attr in ("get", "pop", "setdefault") and n.args and isinstance(n.args[0], ast.Constant) and isinstance(n.args[0].value, str):
+            keys.add(n.args[0].value)
+        elif isinstance(n, ast.Call) and call_attr(n) in ("dict", "OrderedDict"):
+            keys |= {kw.arg for kw in n.keywords if kw.arg}
+    return sorted(keys)
+
+
+def _hash_call(mod, fn: ast.AST, c: ast.Call) -> bool:
+    from .c04_rest import _is_hasher_update, _qualified
+
+    d = _qualified(mod, c)
+    return d == "uuid.uuid5" or d.startswith("hashlib.") or _is_hasher_update(fn, c, mod)
+
+
+class RawFieldReach:
+    """Does what a node mapping holds under *field* reach an expression of the canonicaliser without having passed the
+    function G?  The node-level locations (root, prefix) - G's argument is root<prefix + field> - are taken from the
+    value origins of the argument of the G call(s), also behind helpers that hand their argument back.  From a queried
+    expression the value origins are followed through container literals and copies (field by field, so that a store
+    which replaces a field on every path to the use counts), through the arguments of calls whose result is used
+    whole (a transformation of its arguments) and through the operands of other expressions; the walk stops at a call
+    of G.  A leaf that is the whole node mapping (or the node list) is asked again for the field itself at the place
+    it is used - there the field may already hold G's result."""
+
+    def __init__(self, repo: Repo, rel: str, flow, field: str, g_fn: Tuple[str, str]):
+        self.repo, self.rel, self.flow, self.field, self.g_fn = repo, rel, flow, field, g_fn
+        self.mod = repo.module(rel)
+        self.keys = ["f:" + k for k in _const_keys_of(flow.fn)]
+        self.locs: List[Tuple[ast.AST, Tuple[str, ...]]] = []
+        for c in calls_in(flow.fn):
+            if not self.is_g(c):
+                continue
+            for _p, a in _bind_args(_package_targets(repo, self.mod, c)[0][1], c)[:1]:
+                for root, p in object_origins(repo, rel, flow, a):
+                    if p and p[-1] == "f:" + field and not any(root is r0 and p[:-1] == p0 for r0, p0 in self.locs):
+                        self.locs.append((root, p[:-1]))
+        self.seen: Set[Tuple[int, Tuple[str, ...]]] = set()
+        self.calls: List[ast.Call] = []
+        self.hits: List[Tuple[ast.AST, str]] = []
+
+    def is_g(self, c: ast.AST) -> bool:
+        if not isinstance(c, ast.Call):
+            return False
+        t = _package_targets(self.repo, self.mod, c)
+        return len(t) == 1 and (t[0][0].rel, qualname_of(t[0][1])) == self.g_fn
+
+    def _relation(self, root: ast.AST, rest: Tuple[str, ...]) -> Tuple[str, Tuple[str, ...]]:
+        from .c04_rest import _acc_may_equal
+
+        best: Tuple[str, Tuple[str, ...]] = ("", ())
+        for r0, pre in self.locs:
+            if r0 is not root:
+                continue
+            full = pre + ("f:" + self.field,)
+            n = min(len(full), len(rest))
+            if not all(_acc_may_equal(a, b) for a, b in zip(full[:n], rest[:n])):
+                continue
+            if len(rest) >= len(full):
+                return ("field", ())
+            best = ("above", full[len(rest):])
+        return best
+
+    def reach(self, e: ast.AST, path: Tuple[str, ...] = ()) -> None:
+        from .c04_rest import ANY, COPY_CALLS, SEQ_REORDER
+
+        key = (id(e), path)
+        if key in self.seen or len(path) > 7:
+            return
+        self.seen.add(key)
+        try:
+            leaves = self.flow.origins(e, path)
+        except AnalysisError:
+            return
+        for root, rest in sorted(leaves, key=lambda l: (getattr(l[0], "lineno", 0), getattr(l[0], "col_offset", 0), l[1])):
+            rel, more = self._relation(root, rest)
+            if rel == "field":
+                self.hits.append((e, _leaf_text((root, rest))))
+                continue
+            if rel == "above":
+                self.reach(e, path + more)  # the node mapping as a whole: what does it hold under the field *here*?
+                continue
+            if rest or isinstance(root, (ast.Constant, ast.Name, ast.Lambda)):
+                continue
+            if isinstance(root, ast.Call):
+                self.calls.append(root)
+                if self.is_g(root):
+                    continue
+                nm = call_attr(root)
+                if nm in ("dict", "OrderedDict") or (isinstance(root.func, ast.Attribute) and nm == "copy") or nm == "deepcopy":
+                    for k in self.keys:
+                        self.reach(e, path + (k,))
+                    continue
+                if nm in COPY_CALLS | SEQ_REORDER:
+                    self.reach(e, path + (ANY,))
+                    continue
+                for a in list(root.args) + [kw.value for kw in root.keywords]:
+                    self.reach(a.value if isinstance(a, ast.Starred) else a, ())
+                if isinstance(root.func, ast.Attribute):
+                    self.reach(root.func.value, ())
+                continue
+            if isinstance(root, ast.Dict):
+                if not root.keys:
+                    continue
+                for k in self.keys:
+                    self.reach(e, path + (k,))
+                if any(k is None or not (isinstance(k, ast.Constant) and isinstance(k.value, str)) for k in root.keys):
+                    self.reach(e, path + (ANY,))
+                continue
+            if isinstance(root, (ast.List, ast.Tuple, ast.Set, ast.ListComp, ast.SetComp, ast.GeneratorExp, ast.DictComp)):
+                self.reach(e, path + (ANY,))
+                continue
+            for ch in ast.iter_child_nodes(root):
+                if isinstance(ch, ast.expr) and not isinstance(ch, ast.Constant):
+                    self.reach(ch, ())
+                elif isinstance(ch, ast.FormattedValue):
+                    self.reach(ch.value, ())
+
+
+def canonical_form_reads_raw(repo: Repo, field: str, g_fn: Tuple[str, str]) -> Tuple[List[Tuple[ast.AST, str]], int]:
+    """(raw reads, number of hashed sinks looked at): the expressions of the canonicaliser (normal form) through which
+    what a node holds under *field* reaches a hashed value - the argument of a uuid5 / hashlib call, or a returned
+    structure that carries the result of such a call (the canonical spec, hashed again by compute_pipeline_id) -
+    without having passed *g_fn*."""
+    from .c04_rest import GRAPH
+
+    flow = _identity_flow(repo, GRAPH, "build_canonical_spec")
+    if flow is None:
+        raise AnalysisError("build_canonical_spec: value-origin analysis failed (anchor of the hashed node content)")
+    mod = repo.module(GRAPH)
+    hits: List[Tuple[ast.AST, str]] = []
+    n_sinks = 0
+    for c in calls_in(flow.fn):
+        if _hash_call(mod, flow.fn, c) and c.args:
+            w = RawFieldReach(repo, GRAPH, flow, field, g_fn)
+            if not w.locs:
+                raise AnalysisError(f"build_canonical_spec: no node-level location of `{field}` behind the argument of {g_fn[1]}")
+            w.reach(c.args[-1])
+            n_sinks += 1
+            hits += w.hits
+    for ret in [n for n in walk_no_nested(flow.fn) if isinstance(n, ast.Return) and n.value is not None]:
+        parts = list(ret.value.elts) if isinstance(ret.value, ast.Tuple) else [ret.value]
+        for part in parts:
+            w = RawFieldReach(repo, GRAPH, flow, field, g_fn)
+            w.reach(part)
+            if any(_hash_call(mod, flow.fn, c) for c in w.calls):  # carries an identity: the canonical spec
+                n_sinks += 1
+                hits += w.hits
+    if not n_sinks:
+        raise AnalysisError("build_canonical_spec: no hashed value found (uuid5 / hashlib call)")
+    uniq: Dict[int, Tuple[ast.AST, str]] = {}
+    for e, txt in hits:  # one per statement: the shortest read (the field itself rather than one of its parts)
+        k = id(stmt_of(e))
+        if k not in uniq or len(txt) < len(uniq[k][1]):
+            uniq[k] = (e, txt)
+    return sorted(uniq.values(), key=lambda h: (getattr(h[0], "lineno", 0), h[1])), n_sinks
+
+
+def write_backs_absorbed(repo: Repo, R: Report, accepted: List[Tuple[str, Tuple[str, str], str, str, str]]) -> None:
+    """C04-D3e: every (field, G) write-back that D3d accepted is one the canonical form cannot see."""
+    from .c04_rest import GRAPH
+
+    r = R.rule("C04-D3e-canonical-form-absorbs-write-back", "where a function that is handed the caller's node mapping stores G(<field>) back under the same field (the node factory keeps the resolved parameters in the node it was given - accepted by C04-D3d because the canonicaliser applies the same G), everything the canonicaliser hashes of that field has passed G: no value read from the node's field reaches a uuid5 / sha256 argument or the returned canonical spec except through a call of G.  Otherwise the canonical form of a node list that was inspected first (field already = G(v): build_inspection_payload, inspect-then-run in the CLI) is made of G(v), that of a fresh parse (Pipeline(cfg), pipeline_start) of v - different node uuids, pipeline id, semantic id and config id for the same configuration wherever G changes the value", 1)
+    if not accepted:
+        R.ok(r, GRAPH, "build_canonical_spec", "no write-back into a caller's node mapping is accepted by C04-D3d: nothing to absorb")
+        return
+    done: Set[Tuple[str, Tuple[str, str]]] = set()
+    for field, g_fn, w_rel, w_qn, w_stmt in accepted:
+        if (field, g_fn) in done:
+            continue
+        done.add((field, g_fn))
+        hits, n_sinks = canonical_form_reads_raw(repo, field, g_fn)
+        if not hits:
+            R.ok(r, GRAPH, "build_canonical_spec", f"`{field}` reaches the {n_sinks} hashed value(s) only through {g_fn[1]}(..)  [write-back: {w_qn}: {w_stmt[:50]}]")
+        for e, txt in hits:
+            st = stmt_of(e)
+            R.violation(r, GRAPH, "build_canonical_spec", norm(st)[:90],
+                        f"`{norm(e)[:60]}` (= `{txt}`, the `{field}` of the node as it was handed in) reaches a hashed value without passing `{g_fn[1]}`, while `{w_qn}` ({w_rel}) stores `{g_fn[1]}({field})` back into the caller's node mapping (`{w_stmt[:60]}`): a node list that was inspected before it is canonicalised (build_inspection_payload, `semantiva inspect` / `run`) is hashed with the resolved `{field}`, a freshly parsed one (Pipeline(cfg), pipeline_start) with the declared `{field}` - the node uuid, pipeline id, semantic id and config id of the same configuration differ between inspect and run wherever `{g_fn[1]}` rewrites a value (a `model:` / resolver spec)", getattr(st, "lineno", 0))
+
+
 def node_mapping_callees(repo: Repo, consumers: List[Tuple[str, str, str]], max_depth: int = 3) -> List[Tuple[str, str, str, str]]:
     """(file, function, parameter, call chain) of the package functions that receive - directly or through further
     calls - an object that is, or is still part of (no copy in between), the node list a consumer was handed."""
@@ -383,8 +573,10 @@ def node_mapping_callees(repo: Repo, consumers: List[Tuple[str, str, str]], max_
     return out
 
 
-def no_mutation_by_callees(repo: Repo, R: Report) -> None:
-    """C04-D3d: ownership of the node mappings does not end at the first call."""
+def no_mutation_by_callees(repo: Repo, R: Report) -> List[Tuple[str, Tuple[str, str], str, str, str]]:
+    """C04-D3d: ownership of the node mappings does not end at the first call.  Returns the accepted write-backs
+    (field, G, file, function, statement) - the obligations of C04-D3e."""
+    accepted: List[Tuple[str, Tuple[str, str], str, str, str]] = []
     r = R.rule("C04-D3d-node-config-callees-do-not-mutate", "a function that is handed - by a consumer of the node list (the inspection builder, build_canonical_spec) or further down the calls - an object that is still the caller's node mapping or part of it (no copy in between; a helper that returns its argument unchanged on some path hands the caller's object back) does not write into it: inspection constructs the nodes from the very mappings that are canonicalised afterwards (build_inspection_payload, inspect-then-Pipeline in the CLI), so a field rewritten on the way (a processor name replaced by the resolved class, a default filled in) gives the same configuration other node uuids / pipeline id / semantic id / config id after an inspection than on a fresh parse.  Only a store the canonicaliser performs itself on its own copy - the same field replaced by the same function of what that field held (parameter resolution, idempotent) - leaves the canonical form as it was", 2)
     consumers = node_config_consumers(repo)
     callees = node_mapping_callees(repo, consumers)
@@ -416,11 +608,13 @@ def no_mutation_by_callees(repo: Repo, R: Report) -> None:
             sig = _self_normalising_store(repo, rel, flow, st, container, is_param)
             if sig is not None and sig in allowed:
                 R.ok(r, rel, qn, f"{norm(st)[:70]}  [= the canonicaliser's own `{sig[0]}` <- {sig[1][1]}({sig[0]})]")
+                accepted.append((sig[0], sig[1], rel, qn, norm(st)))
                 continue
             R.violation(r, rel, qn, norm(st)[:90],
                         f"in-place write into `{norm(container)[:40]}`, which can be the caller's own node mapping (`{shared[0]}`, handed down {chain}; no copy on that path): the node list that was inspected is canonicalised afterwards (build_inspection_payload builds the canonical spec from the same mappings, the CLI inspects and then constructs the Pipeline), and `_canonical_node` / the node uuid see the rewritten field - the same configuration gets other node uuids, pipeline id, semantic id and config id than on a fresh parse or than pipeline_start of a Pipeline built without inspecting first", st.lineno)
         if n_sites == 0:
             R.ok(r, rel, qn, f"{qn}({pname}): no write reaches the caller's mapping")
+    return accepted
 
 
 def _leaf_text(leaf) -> str:
@@ -449,7 +643,7 @@ def run(repo: Repo, R: Report) -> None:
     R.undecided("the repr() fallback of variable_domain_signature / _json_safe_sample for values json.dumps rejects (C04-D2b accepts a rendering that is only reached after json.dumps of the same value failed): a sequence element that is a mapping holding a non-JSON scalar (YAML date) is still rendered in key order, a YAML !!set in hash-seed order - residual of the unchanged tree, reproduced by hand")
     no_mutation_of_hashed_input(repo, R)
     no_mutation_of_node_configs(repo, R)
-    no_mutation_by_callees(repo, R)
+    write_backs_absorbed(repo, R, no_mutation_by_callees(repo, R))
     from . import c04_rest
 
     c04_rest.run(repo, R)
